@@ -10,6 +10,7 @@
 -/
 import Deepali.Proofs.GridMaps
 import Deepali.Proofs.Rounding
+import Deepali.Proofs.Examples
 import Mathlib.Tactic.Linarith
 import Mathlib.Tactic.NormNum
 import Mathlib.Data.Rat.Floor
@@ -189,21 +190,6 @@ theorem C01_coords_range (n : Nat) (hn : 2 ≤ n) (ac : Bool) (k : Nat) (hk : k 
 
 /-! ### non-vacuity: a concrete rotated anisotropic grid meets every hypothesis used above -/
 
-/-- 5×4 samples, spacing (2, 1/2), rotated by 90°, centred at (1, −3). -/
-def exampleGrid : Grid 2 ℚ :=
-  ⟨![5, 4], ![1, -3], ![2, 1 / 2], ![![0, -1], ![1, 0]], true⟩
-
-theorem exampleGrid_size : exampleGrid.sizeTensor = ![5, 4] := by
-  funext i; fin_cases i <;> simp [Grid.sizeTensor, exampleGrid, HasFloor.ceil]
-
-example : exampleGrid.Valid ∧ (∀ a, exampleGrid.CornersOK a) := by
-  refine ⟨⟨?_, ?_, ?_⟩, ?_⟩
-  · intro i; fin_cases i <;> simp [exampleGrid]
-  · ext i j
-    rw [Matrix.mul_apply, Fin.sum_univ_two]
-    simp only [Matrix.transpose_apply, toM_apply]
-    fin_cases i <;> fin_cases j <;> simp [exampleGrid]
-  · intro i; rw [exampleGrid_size]; fin_cases i <;> simp
-  · intro a _ i; rw [exampleGrid_size]; fin_cases i <;> simp
+example : exampleGrid.Valid ∧ (∀ a, exampleGrid.CornersOK a) := ⟨exampleGrid_valid, exampleGrid_cornersOK⟩
 
 end Deepali
